@@ -16,6 +16,7 @@ from .sizes import Box, ConstV, DictV, IntV, Poly, RaisesV, SeqV, ShapeV, SizeEv
 
 CELL = "a5.core.cell.cell_to_boundary"
 RESOLUTIONS = [0, 1, 2, 3, 5, 6, 7, 12, 29]
+CONCRETE_SEGMENT_RESOLUTIONS = [1, 7]     # the extra concrete segment counts are evaluated at one triangle and one pentagon level
 
 
 def hooks_for(r: int) -> Dict[str, Any]:
@@ -54,7 +55,8 @@ def configs():
     out = []
     for seg_name, seg_val, seg_key in (
             ("segments absent", None, "auto"), ("segments='auto'", ConstV("auto"), "auto"), ("segments=None", ConstV(None), "auto"),
-            ("segments=1", IntV(Poly.const(1)), 1), ("segments=3", IntV(Poly.const(3)), 3), ("segments=s (any int >= 2)", IntV(Poly.sym("s"), 2), "s")):
+            ("segments=1", IntV(Poly.const(1)), 1), ("segments=3", IntV(Poly.const(3)), 3), ("segments=s (any int >= 2)", IntV(Poly.sym("s"), 2), "s")) + \
+            tuple((f"segments={k}", IntV(Poly.const(k)), k) for k in (2, 4, 5, 6, 7, 10, 13)):
         for cr_name, cr_val, closed in (("closed_ring absent", None, True), ("closed_ring=True", ConstV(True), True), ("closed_ring=False", ConstV(False), False)):
             d = {}
             if seg_val is not None:
@@ -83,6 +85,8 @@ def run(ctx):
     n_cfg = 0
     for r in RESOLUTIONS:
         for name, opts, seg_key, closed in configs():
+            if isinstance(seg_key, int) and seg_key not in (1, 3) and r not in CONCRETE_SEGMENT_RESOLUTIONS:
+                continue
             ev = SizeEval(model, hooks_for(r))
             try:
                 res = ev.run(fi, [Unknown("cell id"), opts], {})
